@@ -1,3 +1,123 @@
-import WireV.Sets
+import WireP.Props.Pipeline
+import WireP.Props.C14
+import WireP.Props.C09
+import WireP.Props.C20
+import WireP.Props.C15
+import WireP.Props.C03
+/-! # C01 — successful generation yields a compilable package (aggregate, IR level)
+
+C01 itself is decided by compiling every generated package.  Its Lean part is the IR-level
+well-formedness that the other properties establish; the theorems below restate them (each a short
+corollary of a theorem proved elsewhere, all hypotheses visible, no new assumption):
+
+* `defined_before_use`, `argument_types` — from `WireP.Pipeline.planLast_ok_spec` (C02 on the whole
+  modelled pipeline `WireV.planLast`);
+* `binders_distinct` — `WireP.C14.nameInjector_distinct`;
+* `signature_declared` — `WireP.C03.needs_sig`;
+* `zero_value_total` — `WireP.C20.zero_kinds_total`, `zero_basic_total`;
+* `copied_decls_complete` — `WireP.C15.copy_total`, `copy_complete`. -/
 namespace WireP.C01
+open WireV WireP.Solve WireP.Pipeline
+
+/-- **Every variable is defined before it is used, and defined once.**  In an accepted plan
+    (`planLast … = .ok calls`, `given` = the injector's parameters) every argument of call number `p`
+    is a variable index `< given.length + p` — an injector parameter or the result of an earlier
+    call — each call has one argument per parameter of its provider, and no type is constructed by
+    two calls (one local variable per constructed type), nor is a given type constructed. -/
+theorem defined_before_use {order : List Ty} {ds : List SetDef} {d : SetDef} {out : Ty}
+    {calls : List Call} (hbl : BuildLast ds) (hd : ds.getLast? = some d)
+    (horder : OrderCovers order ds) (h : planLast order ds out = .ok calls) :
+    (∀ (p : Nat) c, calls[p]? = some c → ∀ a ∈ c.args, a < (d.args.getD []).length + p) ∧
+    (calls.map (·.out)).Nodup ∧ (∀ c ∈ calls, c.out ∉ d.args.getD []) := by
+  obtain ⟨pm, sm, _, _, _, _, _, hs⟩ := planLast_ok_spec hbl hd horder h
+  refine ⟨?_, hs.outs_nodup, hs.outs_not_given⟩
+  intro p c hpc a ha
+  obtain ⟨pt, _, _, _, _, hlen, hargs⟩ := hs.call_sound p c hpc
+  obtain ⟨j, hj, rfl⟩ := List.mem_iff_getElem.mp ha
+  have hj' : j < (depsOf pt.src).length := by omega
+  exact (hargs j c.args[j] (depsOf pt.src)[j] (List.getElem?_eq_getElem hj)
+    (List.getElem?_eq_getElem hj')).1
+
+/-- **Every argument has the type its parameter wants.**  In an accepted plan, with `pm` the
+    provider map of the last set: every call is for a key of the map whose entry `pt` is not an
+    injector argument; it has one argument per dependency of `pt`; the variable passed for
+    dependency `dd` holds exactly `resolveTy pm dd` (the dependency itself, or the concrete type an
+    interface binding maps it to); and the variable the injector returns holds `resolveTy pm out`
+    (it is the last call's, if there is any call). -/
+theorem argument_types {order : List Ty} {ds : List SetDef} {d : SetDef} {out : Ty}
+    {calls : List Call} (hbl : BuildLast ds) (hd : ds.getLast? = some d)
+    (horder : OrderCovers order ds) (h : planLast order ds out = .ok calls) :
+    ∃ pm sm, (procSets order ds).getLast? = some (d.id, SetRes.ok pm sm) ∧
+      (∀ (p : Nat) c, calls[p]? = some c →
+        ∃ pt, look c.out pm = some pt ∧ pt.t = c.out ∧ (∀ i, pt.src ≠ .arg i) ∧
+          c.args.length = (depsOf pt.src).length ∧
+          ∀ (j : Nat) a dd, c.args[j]? = some a → (depsOf pt.src)[j]? = some dd →
+            produced (d.args.getD []) calls a = some (resolveTy pm dd)) ∧
+      (∃ n, look out (final pm sm (d.args.getD []) out).index = some (some n) ∧
+        produced (d.args.getD []) calls n = some (resolveTy pm out)) ∧
+      (calls ≠ [] → (calls.getLast?).map (·.out) = some (resolveTy pm out)) := by
+  obtain ⟨pm, sm, _, hl, _, _, _, hs⟩ := planLast_ok_spec hbl hd horder h
+  refine ⟨pm, sm, hl, ?_, hs.result, hs.result_last⟩
+  intro p c hpc
+  obtain ⟨pt, h1, h2, h3, _, h5, h6⟩ := hs.call_sound p c hpc
+  exact ⟨pt, h1, h2, h3, h5, fun j a dd ha hdd => (h6 j a dd ha hdd).2⟩
+
+/-- **All binders of a generated injector are pairwise distinct**, none is a keyword, none is in
+    file scope (imports, value variables, package scope, universe); one name per parameter, per
+    planned call and per cleanup (`ig.all` = parameters, locals, cleanups and the error variable). -/
+theorem binders_distinct (fuel : Nat) (e : NameEnv) (ps : List ParamInfo) (ss : List StepInfo)
+    (ig : InjNames) (h : nameInjector fuel e ps ss = some ig) :
+    (ig.all.Nodup ∧ ∀ n ∈ ig.all, e.inFileScope n = false ∧ isKeyword n = false) ∧
+    (ig.params.length = ps.length ∧ ig.locals.length = ss.length ∧
+      ig.cleanups.length = (ss.filter (fun s => s.isFunc && s.hasCleanup)).length) :=
+  WireP.C14.nameInjector_distinct fuel e ps ss ig h
+
+/-- **The injector declares every result its body returns.**  Emission is refused unless the
+    injector's signature declares a cleanup (an error) whenever a planned call returns one. -/
+theorem signature_declared (sc se : Bool) (calls : List Call) :
+    sigErrors sc se calls = [] ↔
+      ∀ c ∈ calls, (c.hasCleanup = true → sc = true) ∧ (c.hasErr = true → se = true) :=
+  WireP.C03.needs_sig sc se calls
+
+/-- **A zero value can be written for every type** (`zeroValue` never reaches its `panic`): every
+    kind of underlying type has a case, every typed basic kind is handled by the basic branch. -/
+theorem zero_value_total :
+    zeroUnhandled = [] ∧
+    (Generated.basicKinds.filter (fun kf =>
+      !(kf.2.any (fun f => Generated.zeroBasicFlags.contains f)) &&
+        !Generated.zeroBasicKinds.contains kf.1)) = [] :=
+  ⟨WireP.C20.zero_kinds_total, WireP.C20.zero_basic_total⟩
+
+/-- **Copied declarations are complete**: `copyAST` has a case for every go/ast node kind, and every
+    case copies every child, child-list and value field of its node. -/
+theorem copied_decls_complete : copyUnhandled = [] ∧ copyMissing = [] :=
+  ⟨WireP.C15.copy_total, WireP.C15.copy_complete⟩
+
+/-! ## non-vacuity: the accepted two-set program of `WireP.Props.Pipeline` (six calls) -/
+
+example : (∀ (p : Nat) c, exCalls[p]? = some c → ∀ a ∈ c.args, a < [0].length + p) ∧
+    (exCalls.map (·.out)).Nodup ∧ (∀ c ∈ exCalls, c.out ∉ [0]) :=
+  defined_before_use (d := exBuild) (by decide) rfl (by decide) exOk
+
+example : exCalls.length = 6 ∧ exCalls.map (·.args) = [[], [1], [0, 2], [3], [3], [4, 5]] := by
+  decide
+
+example : ∃ pm sm, (procSets exOrder exDs).getLast? = some (2, SetRes.ok pm sm) ∧
+    (∀ (p : Nat) c, exCalls[p]? = some c →
+      ∃ pt, look c.out pm = some pt ∧ pt.t = c.out ∧ (∀ i, pt.src ≠ .arg i) ∧
+        c.args.length = (depsOf pt.src).length ∧
+        ∀ (j : Nat) a dd, c.args[j]? = some a → (depsOf pt.src)[j]? = some dd →
+          produced [0] exCalls a = some (resolveTy pm dd)) ∧
+    (∃ n, look 7 (final pm sm [0] 7).index = some (some n) ∧
+      produced [0] exCalls n = some (resolveTy pm 7)) ∧
+    (exCalls ≠ [] → (exCalls.getLast?).map (·.out) = some (resolveTy pm 7)) :=
+  argument_types (d := exBuild) (by decide) rfl (by decide) exOk
+
+/-- the naming example of C14: hypotheses of `binders_distinct` are satisfiable -/
+example : ∃ ig, nameInjector 60 WireP.C14.exEnv WireP.C14.exParams WireP.C14.exSteps = some ig :=
+  WireP.C14.nameInjector_total 60 _ _ _ (by decide)
+
+example : sigErrors true true exCalls = [] := by decide
+example : sigErrors true false exCalls ≠ [] := by decide
+
 end WireP.C01
